@@ -12,7 +12,7 @@ PROP = dict(
     stub_notes=["no stubs; crate-private CsptpMessage reached through an opaque hook wrapper with one thin wrapper per method"],
     harnesses=[
         H(ST, "c45", "c45_response", "steps 1-3 of handle_packet through thin hook wrappers (CsptpMessage::deserialize, is_request, new_response) on the template request: parsed iff sdoId 0x300 / PTP version 2 / valid timestamp; response echoes domain, sequence id, "
-                                     "correctionField -> reqCorrectionField, reception time -> reqIngressTimestamp; two-step + unicast flags, leap and traceability flags from the server state, status TLV iff requested (priorities, stepsRemoved, identity)", timeout=1200),
+                                     "correctionField -> reqCorrectionField, reception time -> reqIngressTimestamp; two-step + unicast flags, leap and traceability flags from the server state, status TLV iff requested (priorities, stepsRemoved, identity) (880 s)", tier="thorough", timeout=1200, timeout_thorough=1800),
         H(ST, "c45", "c45_follow_up", "steps 4-6: new_follow_up on a two-step response (request built by new_request with symbolic domain/sequence id), serialised: Follow_Up, 44 bytes, echoes domain and sequence id, preciseOriginTimestamp = the send time; no follow-up for a one-step response", timeout=900),
     ],
 )
